@@ -61,6 +61,8 @@ func execute(d *RunDesc) *RunResult {
 	return res
 }
 
+const simDeadlock = "SIM-DEADLOCK: the operation waits for a lock that only itself, or tasks that wait for it, could release"
+
 var watchdogCh = make(chan uint64, 1)
 
 // startWatchdog: wall-clock guard against hangs (a task blocked in something the
@@ -108,7 +110,19 @@ func main() {
 	wd := fs.Duration("watchdog", 60*time.Second, "per-run wall-clock watchdog")
 	_ = fs.Parse(os.Args[2:])
 
-	simrt.DeadlockHook = func() {}
+	// A simulated deadlock aborts the operation that can never return; guard()
+	// turns the panic into a result the oracles recognise.
+	simrt.DeadlockHook = func() { panic(simDeadlock) }
+	// Does the instrumented library start goroutines of its own?  Then yields
+	// must check who is calling (see simrt.SetCheckGoroutine).
+	if b, err := os.ReadFile(os.Getenv("CVSSSIM_SITES")); err == nil {
+		var sf struct {
+			GoStmts int `json:"go_statements"`
+		}
+		if json.Unmarshal(b, &sf) == nil && sf.GoStmts > 0 {
+			simrt.SetCheckGoroutine(true)
+		}
+	}
 
 	switch mode {
 	case "gen":
